@@ -224,3 +224,42 @@ fn c14_shader_package_pixel_shader_parameters() {
     kani::cover!(true);
     core::mem::forget(pkg);
 }
+
+// -------------------------------------------------------------------------------------------------
+// C18: a package with ONE node and TWO aliases whose targets are ARBITRARY 32-bit values (damaged
+// file): building the selector table and resolving any selector never panics; an alias whose target
+// is not a node resolves to nothing, wherever it stands in the alias table
+// -------------------------------------------------------------------------------------------------
+const DA_TOTAL: usize = SP_NODES + SP_NODE + 16; // 172
+#[kani::proof]
+#[kani::unwind(20)]
+#[kani::stub(core::str::validations::run_utf8_validation, crate::verif_support::refs::ascii_utf8_validation)]
+fn c18_shader_package_dangling_aliases() {
+    let mut b: [u8; DA_TOTAL] = kani::any();
+    let put32 = |b: &mut [u8; DA_TOTAL], o: usize, v: u32| { let x = v.to_le_bytes(); b[o] = x[0]; b[o + 1] = x[1]; b[o + 2] = x[2]; b[o + 3] = x[3]; };
+    let put16 = |b: &mut [u8; DA_TOTAL], o: usize, v: u16| { let x = v.to_le_bytes(); b[o] = x[0]; b[o + 1] = x[1]; };
+    let le32 = |b: &[u8; DA_TOTAL], o: usize| u32::from_le_bytes([b[o], b[o + 1], b[o + 2], b[o + 3]]);
+    b[0] = b'S'; b[1] = b'h'; b[2] = b'P'; b[3] = b'k';
+    b[8] = b'D'; b[9] = b'X'; b[10] = b'1'; b[11] = b'1';
+    put32(&mut b, 24, 0); put32(&mut b, 28, 0);
+    put16(&mut b, 36, 1); put16(&mut b, 38, 0); put16(&mut b, 40, 0); put16(&mut b, 44, 0); put16(&mut b, 46, 0); put16(&mut b, 48, 0);
+    put32(&mut b, 52, 1); put32(&mut b, 56, 0); put32(&mut b, 60, 1);
+    put32(&mut b, 64, 1); put32(&mut b, 68, 2);                  // one node, two aliases
+    put32(&mut b, SP_NODES + 4, 1);                              // one pass
+    let a0 = SP_NODES + SP_NODE;
+    let (sel0, t0, sel1, t1) = (le32(&b, a0), le32(&b, a0 + 4), le32(&b, a0 + 8), le32(&b, a0 + 12));
+    let pkg = ShaderPackage::from_existing(&b).unwrap();
+    let q: u32 = kani::any();
+    let s0 = le32(&b, SP_NODES);
+    let got = pkg.find_node(q);
+    let want_some = q == s0 || (q == sel0 && t0 == 0) || (q == sel1 && t1 == 0 && !(q == sel0 && t0 != 0));
+    // (when both aliases carry the queried selector, the first one decides)
+    match got {
+        Some(n) => { assert!(want_some); assert!(core::ptr::eq(n, &pkg.nodes[0])); }
+        None => assert!(!want_some),
+    }
+    kani::cover!(q == sel1 && q != sel0 && q != s0 && t1 == 1);   // dangling second alias naming "node 1" of 1
+    kani::cover!(q == sel1 && q != sel0 && q != s0 && t1 == 0 && t0 == 0);
+    kani::cover!(q == sel0 && q != s0 && t0 == 0xFFFF_FFFF);
+    core::mem::forget(pkg);
+}
